@@ -60,6 +60,9 @@ func base(r *vh.Run, et int32, ki, n int) {
 	}
 	rnd := vh.NewRand("c06", bk)
 	key := pcommon.RefKey(vh.NewRand("c06key", et, ki), et)
+	if n%2 == 1 {
+		key = pcommon.SharedKey(et, ki) // odd lengths: the same bytes for every etype of equal key length
+	}
 	usage := pcommon.UsageSet[rnd.Intn(len(pcommon.UsageSet))]
 	pt := rnd.Bytes(n)
 	ct, err := kcrypto.EncryptConf(et, key, usage, pt, rnd.Bytes(kcrypto.ConfLen(et)))
